@@ -729,6 +729,9 @@ def _prune_empty_spans(element: model.ContentElement):
       element.remove_child(child)
     elif isinstance(child, model.Span) and not child:
       element.remove_child(child)
+    elif isinstance(child, model.Ruby) and not any(isinstance(e, (model.Text, model.Br)) for e in child.dfs_iterator()):
+      # a ruby container whose base and text have collapsed to nothing
+      element.remove_child(child)
 
 
 def _construct_text_list(element: model.ContentElement, text_node_list: typing.List[typing.Union[model.Text, model.Br]]):
